@@ -12,12 +12,13 @@ Fixpoint sl_flat (l : list bytes) : bytes :=
 Definition enc_strlist (l : list bytes) : bytes :=
   enc64 (N.of_nat (length (sl_flat l))) ++ sl_flat l.
 
-(* getValues(): split at NULs; a last item without terminator would be read past the buffer: None *)
+(* getValues(): split at NULs; a last item without terminator would be read past the buffer: None.
+   [cur] is the current item reversed ([rev_append cur []] = [rev cur], linear when extracted) *)
 Fixpoint sl_split (l : bytes) (cur : bytes) : option (list bytes) :=
   match l with
   | [] => match cur with [] => Some [] | _ => None end
   | b :: l' => if N.eqb b 0
-               then match sl_split l' [] with Some r => Some (rev cur :: r) | None => None end
+               then match sl_split l' [] with Some r => Some (rev_append cur [] :: r) | None => None end
                else sl_split l' (b :: cur)
   end.
 
